@@ -1,5 +1,6 @@
 // C29 implementation probe: (1) `witness`  replays the Coq witness of C29_valid_implies_psd_refuted on the real Inertia class;
-// (2) `search <seed> <n>`  failing-input search: the property's own predicates evaluated on the implementation for n random inputs.
+// (2) `search <seed> <n>`  failing-input search: the property's own predicates evaluated on the implementation for n random inputs,
+//     through the Transform_/Rotation_ AND the InverseTransform_/InverseRotation_ overloads (they are separately written code).
 // Prints `FAIL <predicate> <details>` per violated predicate instance (first few), `DONE <evaluations>` at the end.
 #include "Simbody.h"
 #include <cstdio>
@@ -112,7 +113,48 @@ int main(int argc, char** argv) {
           ArticulatedInertia P(M); ArticulatedInertia Ps = P.shift(r); ArticulatedInertia Pref(M.shift(r)); ++evals;
           ArticulatedInertia Pref2(M.shift(-r));
           double e1 = diff(Ps.getInertia(), Pref.getInertia()), e2 = diff(Ps.getInertia(), Pref2.getInertia());
-          if (std::min(e1, e2) > tol * ksc) fail("articulated_shift_agrees_with_rigid_shift", fmt("e(+s)=%g e(-s)=%g", e1, e2)); }
+          if (std::min(e1, e2) > tol * ksc) fail("articulated_shift_agrees_with_rigid_shift", fmt("e(+s)=%g e(-s)=%g", e1, e2));
+          // P8 the same identities through the InverseTransform_ / InverseRotation_ overloads (separately written code paths):
+          //    Y := ~X as a Transform, so that ~Y is an InverseTransform_ denoting the same transform as X
+          { Transform Y(~X); const InverseTransform& Xi = ~Y; Rotation Rt(~R); const InverseRotation& Ri = ~Rt;
+            double tsc = scaleOf(G.asSymMat33()) + p.normSqr() + X.p().normSqr() + 1;
+            std::string in = S(G.asSymMat33()) + fmt(" m=%.17g p=", mass) + V(p) + " X.p=" + V(X.p()) + fmt(" X.R=[%.17g %.17g %.17g; %.17g %.17g %.17g; %.17g %.17g %.17g]",
+                             R(0,0),R(0,1),R(0,2),R(1,0),R(1,1),R(1,2),R(2,0),R(2,1),R(2,2));
+            SpatialInertia Mi = M.transform(Xi); ++evals;               // spatial-inertia route (inverse overload) vs mass-properties route
+            double ei = std::max(diff(Mi.getUnitInertia().asSymMat33(), B2.getUnitInertia().asSymMat33()), (Mi.getMassCenter() - B2.getMassCenter()).norm());
+            if (ei > tol * tsc) fail("inverse_transform_agrees_with_massprops", fmt("err=%g ", ei) + in);
+            SpatialInertia Mip(M); Mip.transformInPlace(Xi); ++evals;
+            ei = std::max(diff(Mip.getUnitInertia().asSymMat33(), B2.getUnitInertia().asSymMat33()), (Mip.getMassCenter() - B2.getMassCenter()).norm());
+            if (ei > tol * tsc) fail("inverse_transformInPlace_agrees_with_massprops", fmt("err=%g ", ei) + in);
+            MassProperties Bi = B.calcTransformedMassProps(Xi); ++evals; // mass-properties route fed the inverse transform (converted)
+            ei = std::max(diff(Bi.getUnitInertia().asSymMat33(), M2.getUnitInertia().asSymMat33()), (Bi.getMassCenter() - M2.getMassCenter()).norm());
+            if (ei > tol * tsc) fail("massprops_inverse_transform_agrees_with_spatial_inertia", fmt("err=%g ", ei) + in);
+            // round trips: transform(X) then transform(~X), and the other way round, return the original
+            SpatialInertia Mrt = M.transform(X).transform(~X); ++evals;
+            ei = std::max(diff(Mrt.getUnitInertia().asSymMat33(), G.asSymMat33()), (Mrt.getMassCenter() - p).norm());
+            if (ei > tol * tsc * (1 + X.p().normSqr())) fail("transform_then_inverse_transform_roundtrip", fmt("err=%g ", ei) + in);
+            SpatialInertia Mrt2 = M.transform(~X).transform(X); ++evals;
+            ei = std::max(diff(Mrt2.getUnitInertia().asSymMat33(), G.asSymMat33()), (Mrt2.getMassCenter() - p).norm());
+            if (ei > tol * tsc * (1 + X.p().normSqr())) fail("inverse_transform_then_transform_roundtrip", fmt("err=%g ", ei) + in);
+            MassProperties Brt = B.calcTransformedMassProps(X).calcTransformedMassProps(~X); ++evals;
+            ei = std::max(diff(Brt.getUnitInertia().asSymMat33(), G.asSymMat33()), (Brt.getMassCenter() - p).norm());
+            if (ei > tol * tsc * (1 + X.p().normSqr())) fail("massprops_transform_roundtrip", fmt("err=%g ", ei) + in);
+            // kinetic energy through the inverse overload (Vr = V shifted by X.p and re-expressed by X.R, as above)
+            double kei = 0.5 * (~Vr * (Mi * Vr)); ++evals;
+            if (std::abs(ke - kei) > tol * ksc) fail("ke_invariant_under_inverse_transform", fmt("ke=%.17g transformed=%.17g ", ke, kei) + in);
+            // articulated inertia built from either route is the same operator
+            { ArticulatedInertia Pa(Mi), Pb(M2); ++evals;
+              if (diff(Pa.getInertia(), Pb.getInertia()) + (Pa.getMassMoment() - Pb.getMassMoment()).norm() > tol * ksc) fail("articulated_of_inverse_transform_agrees", in); }
+            // re-expression through InverseRotation_ equals re-expression through Rotation_ (Inertia, UnitInertia, SpatialInertia, MassProperties)
+            ++evals; if (diff(I_O.reexpress(Ri).asSymMat33(), I_O.reexpress(R).asSymMat33()) > tol * sc) fail("inertia_reexpress_inverse_rotation", S(s));
+            ++evals; if (diff(G.reexpress(Ri).asSymMat33(), G.reexpress(R).asSymMat33()) > tol * tsc) fail("unitinertia_reexpress_inverse_rotation", in);
+            { SpatialInertia Ma = M.reexpress(Ri), Mb = M.reexpress(R); ++evals;
+              if (diff(Ma.getUnitInertia().asSymMat33(), Mb.getUnitInertia().asSymMat33()) + (Ma.getMassCenter() - Mb.getMassCenter()).norm() > tol * tsc) fail("spatialinertia_reexpress_inverse_rotation", in);
+              SpatialInertia Mc(M); Mc.reexpressInPlace(Ri); ++evals;
+              if (diff(Mc.getUnitInertia().asSymMat33(), Mb.getUnitInertia().asSymMat33()) + (Mc.getMassCenter() - Mb.getMassCenter()).norm() > tol * tsc) fail("spatialinertia_reexpressInPlace_inverse_rotation", in);
+              MassProperties Bb = B.reexpress(R); ++evals;
+              if (diff(Bb.getUnitInertia().asSymMat33(), Mb.getUnitInertia().asSymMat33()) + (Bb.getMassCenter() - Mb.getMassCenter()).norm() > tol * tsc) fail("massprops_reexpress_agrees_with_spatial_inertia", in); }
+          } }
         // P7 accepted => positive semidefinite (the known finding lives here): random symmetric matrices
         { Vec3 d(U(0, 2), U(0, 2), U(0, 2)); Vec3 pr(U(-1, 1), U(-1, 1), U(-1, 1)); SymMat33 t(d[0], pr[0], d[1], pr[1], pr[2], d[2]); ++evals;
           if (Inertia::isValidInertiaMatrix(t)) {
